@@ -11,6 +11,7 @@ CONSTANTS
   Gated = TRUE
   AllowGap = TRUE
   AllowPass = FALSE
+  AbortOnGap = TRUE
   DefectTakeAny = FALSE
   DefectNoJoin = FALSE
 SYMMETRY Symm
@@ -23,6 +24,7 @@ INVARIANTS
   DbIsFoldOfPrefix
   FinalContent
   DropDrains
+  DropDrainsStrict
   NotifyAfterDurable
   StallOnlyBehindGap
   HeldBackBehindGap
